@@ -17,7 +17,7 @@ def fn_NewBufferedWatcher : List SkOp := [
     ⟨"ifBegin", "%1!=nil", [], []⟩,
     ⟨"ret", "nil, %1", [], []⟩,
     ⟨"ifEnd", "", [], []⟩,
-    ⟨"ret", "&Watcher{b: %2, Events: %3, Errors: %4}, nil", [], []⟩
+    ⟨"ret", "&Watcher{b: %1, Events: %2, Errors: %3}, nil", [], []⟩
 ]
 
 def fn_NewWatcher : List SkOp := [
@@ -27,7 +27,7 @@ def fn_NewWatcher : List SkOp := [
     ⟨"ifBegin", "%1!=nil", [], []⟩,
     ⟨"ret", "nil, %1", [], []⟩,
     ⟨"ifEnd", "", [], []⟩,
-    ⟨"ret", "&Watcher{b: %2, Events: %3, Errors: %4}, nil", [], []⟩
+    ⟨"ret", "&Watcher{b: %1, Events: %2, Errors: %3}, nil", [], []⟩
 ]
 
 def fn_inotify_Add : List SkOp := [
@@ -45,7 +45,7 @@ def fn_inotify_AddWith : List SkOp := [
     ⟨"call", "getOptions", [], []⟩,
     ⟨"call", "xSupports", [], []⟩,
     ⟨"ifBegin", "!%1.xSupports(%2.op)", [], []⟩,
-    ⟨"ret", "fmt.Errorf(\"%w: %s\", xErrUnsupported, %2.op)", [], []⟩,
+    ⟨"ret", "fmt.Errorf(\"%w: %s\", xErrUnsupported, %1.op)", [], []⟩,
     ⟨"ifEnd", "", [], []⟩,
     ⟨"lock", "mu", [], []⟩,
     ⟨"deferUnlock", "mu", [], ["mu"]⟩,
@@ -54,27 +54,27 @@ def fn_inotify_AddWith : List SkOp := [
     ⟨"ret", "ErrClosed", [], ["mu"]⟩,
     ⟨"ifEnd", "", [], ["mu"]⟩,
     ⟨"call", "recursivePath", [], ["mu"]⟩,
-    ⟨"ifBegin", "%3", [], ["mu"]⟩,
+    ⟨"ifBegin", "%1", [], ["mu"]⟩,
     ⟨"litBegin", "", [], ["mu"]⟩,
-    ⟨"ifBegin", "%4!=nil", [], ["mu"]⟩,
-    ⟨"ret", "%4", [], ["mu"]⟩,
+    ⟨"ifBegin", "%1!=nil", [], ["mu"]⟩,
+    ⟨"ret", "%1", [], ["mu"]⟩,
     ⟨"ifEnd", "", [], ["mu"]⟩,
-    ⟨"ifBegin", "!%5.IsDir()", [], ["mu"]⟩,
-    ⟨"ifBegin", "%6==%7", [], ["mu"]⟩,
-    ⟨"ret", "fmt.Errorf(\"fsnotify: not a directory: %q\", %7)", [], ["mu"]⟩,
+    ⟨"ifBegin", "!%1.IsDir()", [], ["mu"]⟩,
+    ⟨"ifBegin", "%1==%2", [], ["mu"]⟩,
+    ⟨"ret", "fmt.Errorf(\"fsnotify: not a directory: %q\", %1)", [], ["mu"]⟩,
     ⟨"ifEnd", "", [], ["mu"]⟩,
     ⟨"ret", "nil", [], ["mu"]⟩,
     ⟨"ifEnd", "", [], ["mu"]⟩,
-    ⟨"ifBegin", "%2.sendCreate&&%6!=%7", [], ["mu"]⟩,
+    ⟨"ifBegin", "%1.sendCreate&&%2!=%3", [], ["mu"]⟩,
     ⟨"call", "sendEvent", [], ["mu"]⟩,
     ⟨"ifEnd", "", [], ["mu"]⟩,
     ⟨"call", "AddWith$add", [], ["mu"]⟩,
-    ⟨"ret", "%8(%6, %2, true)", [], ["mu"]⟩,
+    ⟨"ret", "%1(%2, %3, true)", [], ["mu"]⟩,
     ⟨"litEnd", "", [], ["mu"]⟩,
-    ⟨"ret", "filepath.WalkDir(%7, func(%6 string, %5 fs.DirEntry, %4 error) error { if %4!=nil { return %4 } if !%5.IsDir() { if %6==%7 { return fmt.Errorf(\"fsnotify: not a directory: %q\", %7) } return nil } if %2.sendCreate&&%6!=%7 { %1.sendEvent(Event{Name: %6, Op: Create}) } return %8(%6, %2, true) })", [], ["mu"]⟩,
+    ⟨"ret", "filepath.WalkDir(%1, func(%2 string, %3 fs.DirEntry, %4 error) error { if %4!=nil { return %4 } if !%3.IsDir() { if %2==%1 { return fmt.Errorf(\"fsnotify: not a directory: %q\", %1) } return nil } if %5.sendCreate&&%2!=%1 { %6.sendEvent(Event{Name: %2, Op: Create}) } return %7(%2, %5, true) })", [], ["mu"]⟩,
     ⟨"ifEnd", "", [], ["mu"]⟩,
     ⟨"call", "AddWith$add", [], ["mu"]⟩,
-    ⟨"ret", "%8(%7, %2, false)", [], ["mu"]⟩
+    ⟨"ret", "%1(%2, %3, false)", [], ["mu"]⟩
 ]
 
 def fn_inotify_AddWith_add : List SkOp := [
@@ -108,7 +108,7 @@ def fn_inotify_AddWith_add : List SkOp := [
     ⟨"ifBegin", "%1.op.Has(xUnportableCloseRead)", [], []⟩,
     ⟨"ifEnd", "", [], []⟩,
     ⟨"call", "register", [], []⟩,
-    ⟨"ret", "%2.register(%3, %4, %5)", [], []⟩
+    ⟨"ret", "%1.register(%2, %3, %4)", [], []⟩
 ]
 
 def fn_inotify_Close : List SkOp := [
@@ -117,8 +117,8 @@ def fn_inotify_Close : List SkOp := [
     ⟨"ret", "nil", [], []⟩,
     ⟨"ifEnd", "", [], []⟩,
     ⟨"fileOp", "Close", [], []⟩,
-    ⟨"ifBegin", "%2!=nil", [], []⟩,
-    ⟨"ret", "%2", [], []⟩,
+    ⟨"ifBegin", "%1!=nil", [], []⟩,
+    ⟨"ret", "%1", [], []⟩,
     ⟨"ifEnd", "", [], []⟩,
     ⟨"recv", "doneResp", [], []⟩,
     ⟨"ret", "nil", [], []⟩
@@ -152,7 +152,7 @@ def fn_inotify_WatchList : List SkOp := [
     ⟨"table", "watches.path", [], ["mu"]⟩,
     ⟨"loopBegin", "range %1.watches.path", [], ["mu"]⟩,
     ⟨"loopEnd", "", [], ["mu"]⟩,
-    ⟨"ret", "%2", [], ["mu"]⟩
+    ⟨"ret", "%1", [], ["mu"]⟩
 ]
 
 def fn_inotify_handleEvent : List SkOp := [
@@ -162,48 +162,48 @@ def fn_inotify_handleEvent : List SkOp := [
     ⟨"ifBegin", "%1==nil", [], ["mu"]⟩,
     ⟨"ret", "Event{}, true", [], ["mu"]⟩,
     ⟨"ifEnd", "", [], ["mu"]⟩,
-    ⟨"ifBegin", "%2>0", [], ["mu"]⟩,
+    ⟨"ifBegin", "%1>0", [], ["mu"]⟩,
     ⟨"ifEnd", "", [], ["mu"]⟩,
     ⟨"ifBegin", "debug", [], ["mu"]⟩,
     ⟨"ifEnd", "", [], ["mu"]⟩,
-    ⟨"ifBegin", "%3.Mask&unix.IN_IGNORED!=0||%3.Mask&unix.IN_UNMOUNT!=0", [], ["mu"]⟩,
+    ⟨"ifBegin", "%1.Mask&unix.IN_IGNORED!=0||%1.Mask&unix.IN_UNMOUNT!=0", [], ["mu"]⟩,
     ⟨"call", "remove", [], ["mu"]⟩,
     ⟨"ret", "Event{}, true", [], ["mu"]⟩,
     ⟨"ifEnd", "", [], ["mu"]⟩,
-    ⟨"ifBegin", "%3.Mask&unix.IN_DELETE_SELF==unix.IN_DELETE_SELF", [], ["mu"]⟩,
+    ⟨"ifBegin", "%1.Mask&unix.IN_DELETE_SELF==unix.IN_DELETE_SELF", [], ["mu"]⟩,
     ⟨"call", "remove", [], ["mu"]⟩,
     ⟨"ifEnd", "", [], ["mu"]⟩,
-    ⟨"ifBegin", "%3.Mask&unix.IN_MOVE_SELF==unix.IN_MOVE_SELF", [], ["mu"]⟩,
+    ⟨"ifBegin", "%1.Mask&unix.IN_MOVE_SELF==unix.IN_MOVE_SELF", [], ["mu"]⟩,
     ⟨"ifBegin", "%1.recurse", [], ["mu"]⟩,
     ⟨"ret", "Event{}, true", [], ["mu"]⟩,
     ⟨"ifEnd", "", [], ["mu"]⟩,
     ⟨"call", "remove", [], ["mu"]⟩,
-    ⟨"ifBegin", "%4!=nil&&!errors.Is(%4, ErrNonExistentWatch)&&!errors.Is(%4, unix.EINVAL)", [], ["mu"]⟩,
+    ⟨"ifBegin", "%1!=nil&&!errors.Is(%1, ErrNonExistentWatch)&&!errors.Is(%1, unix.EINVAL)", [], ["mu"]⟩,
     ⟨"call", "sendError", [], ["mu"]⟩,
-    ⟨"ifBegin", "!%5.sendError(%4)", [], ["mu"]⟩,
+    ⟨"ifBegin", "!%1.sendError(%2)", [], ["mu"]⟩,
     ⟨"ret", "Event{}, false", [], ["mu"]⟩,
     ⟨"ifEnd", "", [], ["mu"]⟩,
     ⟨"ifEnd", "", [], ["mu"]⟩,
     ⟨"ifEnd", "", [], ["mu"]⟩,
-    ⟨"ifBegin", "%3.Mask&unix.IN_DELETE_SELF!=0", [], ["mu"]⟩,
+    ⟨"ifBegin", "%1.Mask&unix.IN_DELETE_SELF!=0", [], ["mu"]⟩,
     ⟨"table", "watches.path", [], ["mu"]⟩,
-    ⟨"ifBegin", "%6", [], ["mu"]⟩,
+    ⟨"ifBegin", "%1", [], ["mu"]⟩,
     ⟨"ret", "Event{}, true", [], ["mu"]⟩,
     ⟨"ifEnd", "", [], ["mu"]⟩,
     ⟨"ifEnd", "", [], ["mu"]⟩,
     ⟨"call", "newEvent", [], ["mu"]⟩,
     ⟨"ifBegin", "%1.recurse", [], ["mu"]⟩,
     ⟨"call", "Has", [], ["mu"]⟩,
-    ⟨"ifBegin", "%7&&%8.Has(Create)", [], ["mu"]⟩,
+    ⟨"ifBegin", "%1&&%2.Has(Create)", [], ["mu"]⟩,
     ⟨"call", "register", [], ["mu"]⟩,
     ⟨"call", "sendError", [], ["mu"]⟩,
-    ⟨"ifBegin", "!%5.sendError(%9)", [], ["mu"]⟩,
+    ⟨"ifBegin", "!%1.sendError(%2)", [], ["mu"]⟩,
     ⟨"ret", "Event{}, false", [], ["mu"]⟩,
     ⟨"ifEnd", "", [], ["mu"]⟩,
-    ⟨"ifBegin", "%8.renamedFrom!=\"\"", [], ["mu"]⟩,
+    ⟨"ifBegin", "%1.renamedFrom!=\"\"", [], ["mu"]⟩,
     ⟨"table", "watches.wd", [], ["mu"]⟩,
-    ⟨"loopBegin", "range %5.watches.wd", [], ["mu"]⟩,
-    ⟨"ifBegin", "%10.path==%8.renamedFrom||strings.HasPrefix(%10.path, %8.renamedFrom+\"/\")", [], ["mu"]⟩,
+    ⟨"loopBegin", "range %1.watches.wd", [], ["mu"]⟩,
+    ⟨"ifBegin", "%1.path==%2.renamedFrom||strings.HasPrefix(%1.path, %2.renamedFrom+\"/\")", [], ["mu"]⟩,
     ⟨"table", "watches.path", [], ["mu"]⟩,
     ⟨"table", "watches.path", [], ["mu"]⟩,
     ⟨"ifEnd", "", [], ["mu"]⟩,
@@ -211,7 +211,7 @@ def fn_inotify_handleEvent : List SkOp := [
     ⟨"ifEnd", "", [], ["mu"]⟩,
     ⟨"ifEnd", "", [], ["mu"]⟩,
     ⟨"ifEnd", "", [], ["mu"]⟩,
-    ⟨"ret", "%8, true", [], ["mu"]⟩
+    ⟨"ret", "%1, true", [], ["mu"]⟩
 ]
 
 def fn_inotify_isRecursive : List SkOp := [
@@ -241,14 +241,14 @@ def fn_inotify_newEvent : List SkOp := [
     ⟨"ifEnd", "", [], []⟩,
     ⟨"ifBegin", "%1&unix.IN_ATTRIB==unix.IN_ATTRIB", [], []⟩,
     ⟨"ifEnd", "", [], []⟩,
-    ⟨"ifBegin", "%2!=0", [], []⟩,
+    ⟨"ifBegin", "%1!=0", [], []⟩,
     ⟨"ifBegin", "%1&unix.IN_MOVED_FROM==unix.IN_MOVED_FROM", [], []⟩,
     ⟨"lock", "cookiesMu", [], []⟩,
     ⟨"table", "cookieIndex", [], ["cookiesMu"]⟩,
     ⟨"table", "cookies", [], ["cookiesMu"]⟩,
     ⟨"table", "cookieIndex", [], ["cookiesMu"]⟩,
     ⟨"table", "cookieIndex", [], ["cookiesMu"]⟩,
-    ⟨"ifBegin", "%3.cookieIndex>9", [], ["cookiesMu"]⟩,
+    ⟨"ifBegin", "%1.cookieIndex>9", [], ["cookiesMu"]⟩,
     ⟨"table", "cookieIndex", [], ["cookiesMu"]⟩,
     ⟨"ifEnd", "", [], ["cookiesMu"]⟩,
     ⟨"unlock", "cookiesMu", [], ["cookiesMu"]⟩,
@@ -256,8 +256,8 @@ def fn_inotify_newEvent : List SkOp := [
     ⟨"ifBegin", "%1&unix.IN_MOVED_TO==unix.IN_MOVED_TO", [], []⟩,
     ⟨"lock", "cookiesMu", [], []⟩,
     ⟨"table", "cookies", [], ["cookiesMu"]⟩,
-    ⟨"loopBegin", "range %3.cookies", [], ["cookiesMu"]⟩,
-    ⟨"ifBegin", "%4.cookie==%2", [], ["cookiesMu"]⟩,
+    ⟨"loopBegin", "range %1.cookies", [], ["cookiesMu"]⟩,
+    ⟨"ifBegin", "%1.cookie==%2", [], ["cookiesMu"]⟩,
     ⟨"branch", "break", [], ["cookiesMu"]⟩,
     ⟨"ifEnd", "", [], ["cookiesMu"]⟩,
     ⟨"loopEnd", "", [], ["cookiesMu"]⟩,
@@ -265,7 +265,7 @@ def fn_inotify_newEvent : List SkOp := [
     ⟨"ifEnd", "", [], []⟩,
     ⟨"ifEnd", "", [], []⟩,
     ⟨"ifEnd", "", [], []⟩,
-    ⟨"ret", "%5", [], []⟩
+    ⟨"ret", "%1", [], []⟩
 ]
 
 def fn_inotify_readEvents : List SkOp := [
@@ -280,8 +280,8 @@ def fn_inotify_readEvents : List SkOp := [
     ⟨"ret", "", [], []⟩,
     ⟨"ifEnd", "", [], []⟩,
     ⟨"fileOp", "Read", [], []⟩,
-    ⟨"ifBegin", "%2!=nil", [], []⟩,
-    ⟨"ifBegin", "errors.Is(%2, os.ErrClosed)", [], []⟩,
+    ⟨"ifBegin", "%1!=nil", [], []⟩,
+    ⟨"ifBegin", "errors.Is(%1, os.ErrClosed)", [], []⟩,
     ⟨"ret", "", [], []⟩,
     ⟨"ifEnd", "", [], []⟩,
     ⟨"call", "sendError", [], []⟩,
@@ -290,28 +290,28 @@ def fn_inotify_readEvents : List SkOp := [
     ⟨"ifEnd", "", [], []⟩,
     ⟨"branch", "continue", [], []⟩,
     ⟨"ifEnd", "", [], []⟩,
-    ⟨"ifBegin", "%3<unix.SizeofInotifyEvent", [], []⟩,
-    ⟨"ifBegin", "%3==0", [], []⟩,
+    ⟨"ifBegin", "%1<unix.SizeofInotifyEvent", [], []⟩,
+    ⟨"ifBegin", "%1==0", [], []⟩,
     ⟨"ifEnd", "", [], []⟩,
     ⟨"call", "sendError", [], []⟩,
-    ⟨"ifBegin", "!%1.sendError(%4)", [], []⟩,
+    ⟨"ifBegin", "!%1.sendError(%2)", [], []⟩,
     ⟨"ret", "", [], []⟩,
     ⟨"ifEnd", "", [], []⟩,
     ⟨"branch", "continue", [], []⟩,
     ⟨"ifEnd", "", [], []⟩,
-    ⟨"loopBegin", "%5<=uint32(%3-unix.SizeofInotifyEvent)", [], []⟩,
-    ⟨"ifBegin", "%6.Mask&unix.IN_Q_OVERFLOW!=0", [], []⟩,
+    ⟨"loopBegin", "%1<=uint32(%2-unix.SizeofInotifyEvent)", [], []⟩,
+    ⟨"ifBegin", "%1.Mask&unix.IN_Q_OVERFLOW!=0", [], []⟩,
     ⟨"call", "sendError", [], []⟩,
     ⟨"ifBegin", "!%1.sendError(ErrEventOverflow)", [], []⟩,
     ⟨"ret", "", [], []⟩,
     ⟨"ifEnd", "", [], []⟩,
     ⟨"ifEnd", "", [], []⟩,
     ⟨"call", "handleEvent", [], []⟩,
-    ⟨"ifBegin", "!%7", [], []⟩,
+    ⟨"ifBegin", "!%1", [], []⟩,
     ⟨"ret", "", [], []⟩,
     ⟨"ifEnd", "", [], []⟩,
     ⟨"call", "sendEvent", [], []⟩,
-    ⟨"ifBegin", "!%1.sendEvent(%8)", [], []⟩,
+    ⟨"ifBegin", "!%1.sendEvent(%2)", [], []⟩,
     ⟨"ret", "", [], []⟩,
     ⟨"ifEnd", "", [], []⟩,
     ⟨"loopEnd", "", [], []⟩,
@@ -323,23 +323,23 @@ def fn_inotify_register : List SkOp := [
     ⟨"ifBegin", "%1!=nil", [], []⟩,
     ⟨"ifEnd", "", [], []⟩,
     ⟨"sys", "InotifyAddWatch", ["w.fd"], []⟩,
-    ⟨"ifBegin", "%2==-1", [], []⟩,
-    ⟨"ret", "nil, %3", [], []⟩,
+    ⟨"ifBegin", "%1==-1", [], []⟩,
+    ⟨"ret", "nil, %1", [], []⟩,
     ⟨"ifEnd", "", [], []⟩,
     ⟨"ifBegin", "%1!=nil&&%1.wd!=uint32(%2)", [], []⟩,
     ⟨"sys", "InotifyRmWatch", ["w.fd"], []⟩,
     ⟨"ifEnd", "", [], []⟩,
     ⟨"table", "watches.wd", [], []⟩,
-    ⟨"ifBegin", "%4", [], []⟩,
-    ⟨"ret", "%5, nil", [], []⟩,
+    ⟨"ifBegin", "%1", [], []⟩,
+    ⟨"ret", "%1, nil", [], []⟩,
     ⟨"ifEnd", "", [], []⟩,
     ⟨"ifBegin", "%1==nil", [], []⟩,
-    ⟨"ret", "&watch{ wd: uint32(%2), path: %6, flags: %7, recurse: %8, }, nil", [], []⟩,
+    ⟨"ret", "&watch{ wd: uint32(%1), path: %2, flags: %3, recurse: %4, }, nil", [], []⟩,
     ⟨"ifEnd", "", [], []⟩,
     ⟨"ret", "%1, nil", [], []⟩,
     ⟨"litEnd", "", [], []⟩,
     ⟨"call", "updatePath", [], []⟩,
-    ⟨"ret", "%9.watches.updatePath(%6, func(%1*watch) (*watch, error) { if %1!=nil { %7|= %1.flags|unix.IN_MASK_ADD } %2, %3 := unix.InotifyAddWatch(%9.fd, %6, %7) if %2==-1 { return nil, %3 } if %1!=nil&&%1.wd!=uint32(%2) { unix.InotifyRmWatch(%9.fd, %1.wd) } if %5, %4 := %9.watches.wd[uint32(%2)]; %4 { return %5, nil } if %1==nil { return&watch{ wd: uint32(%2), path: %6, flags: %7, recurse: %8, }, nil } %1.wd = uint32(%2) %1.flags = %7 return %1, nil })", [], []⟩
+    ⟨"ret", "%1.watches.updatePath(%2, func(%3*watch) (*watch, error) { if %3!=nil { %4|= %3.flags|unix.IN_MASK_ADD } %5, %6 := unix.InotifyAddWatch(%1.fd, %2, %4) if %5==-1 { return nil, %6 } if %3!=nil&&%3.wd!=uint32(%5) { unix.InotifyRmWatch(%1.fd, %3.wd) } if %7, %8 := %1.watches.wd[uint32(%5)]; %8 { return %7, nil } if %3==nil { return&watch{ wd: uint32(%5), path: %2, flags: %4, recurse: %9, }, nil } %3.wd = uint32(%5) %3.flags = %4 return %3, nil })", [], []⟩
 ]
 
 def fn_inotify_remove : List SkOp := [
@@ -347,10 +347,10 @@ def fn_inotify_remove : List SkOp := [
     ⟨"ifBegin", "%1!=nil", [], []⟩,
     ⟨"ret", "%1", [], []⟩,
     ⟨"ifEnd", "", [], []⟩,
-    ⟨"loopBegin", "range %2", [], []⟩,
+    ⟨"loopBegin", "range %1", [], []⟩,
     ⟨"sys", "InotifyRmWatch", ["w.fd"], []⟩,
-    ⟨"ifBegin", "%3!=nil", [], []⟩,
-    ⟨"ret", "%3", [], []⟩,
+    ⟨"ifBegin", "%1!=nil", [], []⟩,
+    ⟨"ret", "%1", [], []⟩,
     ⟨"ifEnd", "", [], []⟩,
     ⟨"loopEnd", "", [], []⟩,
     ⟨"ret", "nil", [], []⟩
@@ -371,14 +371,14 @@ def fn_inotify_xSupports : List SkOp := [
 def fn_newBackend : List SkOp := [
     ⟨"sys", "InotifyInit1", ["unix.IN_CLOEXEC | unix.IN_NONBLOCK"], []⟩,
     ⟨"ifBegin", "%1==-1", [], []⟩,
-    ⟨"ret", "nil, %2", [], []⟩,
+    ⟨"ret", "nil, %1", [], []⟩,
     ⟨"ifEnd", "", [], []⟩,
     ⟨"call", "newShared", [], []⟩,
     ⟨"fileOp", "NewFile", [], []⟩,
     ⟨"call", "newWatches", [], []⟩,
     ⟨"makeChan", "struct{}", ["0"], []⟩,
     ⟨"go", "readEvents", [], []⟩,
-    ⟨"ret", "%3, nil", [], []⟩
+    ⟨"ret", "%1, nil", [], []⟩
 ]
 
 def fn_newShared : List SkOp := [
@@ -467,25 +467,25 @@ def fn_watches_removePath : List SkOp := [
     ⟨"call", "recursivePath", [], []⟩,
     ⟨"table", "watches.path", [], []⟩,
     ⟨"ifBegin", "!%1", [], []⟩,
-    ⟨"ret", "nil, fmt.Errorf(\"%w: %s\", ErrNonExistentWatch, %2)", [], []⟩,
+    ⟨"ret", "nil, fmt.Errorf(\"%w: %s\", ErrNonExistentWatch, %1)", [], []⟩,
     ⟨"ifEnd", "", [], []⟩,
     ⟨"table", "watches.wd", [], []⟩,
-    ⟨"ifBegin", "%3&&!%4.recurse", [], []⟩,
-    ⟨"ret", "nil, fmt.Errorf(\"can't use/... with non-recursive watch %q\", %2)", [], []⟩,
+    ⟨"ifBegin", "%1&&!%2.recurse", [], []⟩,
+    ⟨"ret", "nil, fmt.Errorf(\"can't use/... with non-recursive watch %q\", %1)", [], []⟩,
     ⟨"ifEnd", "", [], []⟩,
     ⟨"table", "watches.path", [], []⟩,
     ⟨"table", "watches.wd", [], []⟩,
-    ⟨"ifBegin", "!%4.recurse", [], []⟩,
-    ⟨"ret", "[]uint32{%5}, nil", [], []⟩,
+    ⟨"ifBegin", "!%1.recurse", [], []⟩,
+    ⟨"ret", "[]uint32{%1}, nil", [], []⟩,
     ⟨"ifEnd", "", [], []⟩,
     ⟨"table", "watches.path", [], []⟩,
-    ⟨"loopBegin", "range %6.path", [], []⟩,
-    ⟨"ifBegin", "strings.HasPrefix(%7, %2+\"/\")", [], []⟩,
+    ⟨"loopBegin", "range %1.path", [], []⟩,
+    ⟨"ifBegin", "strings.HasPrefix(%1, %2+\"/\")", [], []⟩,
     ⟨"table", "watches.path", [], []⟩,
     ⟨"table", "watches.wd", [], []⟩,
     ⟨"ifEnd", "", [], []⟩,
     ⟨"loopEnd", "", [], []⟩,
-    ⟨"ret", "%8, nil", [], []⟩
+    ⟨"ret", "%1, nil", [], []⟩
 ]
 
 def fn_watches_updatePath : List SkOp := [
@@ -494,15 +494,15 @@ def fn_watches_updatePath : List SkOp := [
     ⟨"table", "watches.wd", [], []⟩,
     ⟨"ifEnd", "", [], []⟩,
     ⟨"callVar", "f", [], []⟩,
-    ⟨"ifBegin", "%2!=nil", [], []⟩,
-    ⟨"ret", "%2", [], []⟩,
+    ⟨"ifBegin", "%1!=nil", [], []⟩,
+    ⟨"ret", "%1", [], []⟩,
     ⟨"ifEnd", "", [], []⟩,
-    ⟨"ifBegin", "%3!=nil", [], []⟩,
+    ⟨"ifBegin", "%1!=nil", [], []⟩,
     ⟨"table", "watches.wd", [], []⟩,
     ⟨"table", "watches.path", [], []⟩,
-    ⟨"ifBegin", "%3.wd!=%4", [], []⟩,
+    ⟨"ifBegin", "%1.wd!=%2", [], []⟩,
     ⟨"table", "watches.wd", [], []⟩,
-    ⟨"ifBegin", "%1&&%3.path!=%5", [], []⟩,
+    ⟨"ifBegin", "%1&&%2.path!=%3", [], []⟩,
     ⟨"table", "watches.path", [], []⟩,
     ⟨"ifEnd", "", [], []⟩,
     ⟨"ifEnd", "", [], []⟩,
